@@ -490,6 +490,27 @@ def build_items(ctx, env, gen, classes, reps):
     return items
 
 
+def build_rule_items(ctx, gen, classes):
+    """for every class with a hand-written validate_args: one instance per repeated child it declares (forced), as
+    to_etree / from_etree items — the inputs whose fate depends on class-level tables that an error path might touch"""
+    items = []
+    for c in classes:
+        if c.get("extra", "none") in ("none", None):
+            continue
+        for a in c["spec"]:
+            if a["k"] != "listagg":
+                continue
+            d, inst = gen.valid_instance(c["name"], tries=8, force=[a["name"]])
+            if d is None:
+                continue
+            items.append(Item("totree", c["name"], inst))
+            try:
+                items.append(Item("fromtree", c["name"], inst.to_etree(), desc="forced:" + a["name"]))
+            except Exception:   # noqa
+                pass
+    return items
+
+
 def build_conv_items(ctx, gen, n_fresh, n_texts):
     """convert / unconvert items on fresh and on class-level DateTime / Time converters"""
     from ofxtools import Types
@@ -848,6 +869,7 @@ def _run(ctx):
         view.reset()
         import_regs = all_dispatchers()
     gen = Gen(schema, rng, max_depth=2)
+    gen.p_tz = 0.5       # date-times with different GMT offsets: what a per-converter (shared) scratch value would mix up
     classes = concrete_classes(schema)
     shared0 = snapshot_shared()
 
@@ -865,6 +887,7 @@ def _run(ctx):
     items = build_items(ctx, env, gen, sel, reps)
     items += build_conv_items(ctx, gen, 12, ctx.budget(400, 2000))
     items += build_scalar_conv_items(ctx, ctx.budget(150, 800))
+    items += build_rule_items(ctx, gen, classes)
     # lanes for the aligned thread plans: per class one input set per thread
     aligned = {}
     by = {c["name"]: c for c in classes}
